@@ -417,6 +417,62 @@ pub fn search(tier: &str, seed: u64, s: &mut Search) {
             (Err(e), _, _) => s.finding("oracle:tree-size:other-error", &format!("unexpected error {}", e), &key),
         }
     }
+    // ---- defaults of an instance viewport: a `use` of a symbol without width / height takes 100% of the current
+    // viewport (a non-square one here), i.e. it equals the same `use` with the sizes written out
+    for _ in 0..n / 3 {
+        let (rw, rh) = (rng.range(40, 200), rng.range(40, 200));
+        let (sw, sh) = (rng.range(4, 60), rng.range(4, 60));
+        let al = ALIGNS[rng.below(10) as usize];
+        let par = if al == "none" { "none".to_string() } else { format!("{} {}", al, if rng.chance(1, 2) { "slice" } else { "meet" }) };
+        let (gw, gh) = match rng.below(3) {
+            0 => (None, None),
+            1 => (Some(rng.range(10, 150)), None),
+            _ => (None, Some(rng.range(10, 150))),
+        };
+        let doc = |w: Option<i64>, h: Option<i64>| {
+            format!(
+                r##"<svg xmlns="http://www.w3.org/2000/svg" xmlns:xlink="http://www.w3.org/1999/xlink" width="{rw}" height="{rh}" viewBox="0 0 {rw} {rh}"><symbol id="s" viewBox="0 0 {sw} {sh}" preserveAspectRatio="{par}"><rect width="{sw}" height="{sh}" fill="#f00"/><circle cx="{}" cy="{}" r="{}" fill="#00f"/></symbol><use xlink:href="#s"{}{}/></svg>"##,
+                sw / 2, sh / 2, (sw.min(sh) / 3).max(1),
+                w.map(|v| format!(r#" width="{v}""#)).unwrap_or_default(),
+                h.map(|v| format!(r#" height="{v}""#)).unwrap_or_default()
+            )
+        };
+        let (a, b) = (doc(gw, gh), doc(Some(gw.unwrap_or(rw)), Some(gh.unwrap_or(rh))));
+        let (Ok(ta), Ok(tb)) = (rend::parse(&a, &rend::base_opts()), rend::parse(&b, &rend::base_opts())) else { continue };
+        let (Some(pa), Some(pb)) = (rend::render(&ta, rw as u32, rh as u32, tiny_skia::Transform::identity()), rend::render(&tb, rw as u32, rh as u32, tiny_skia::Transform::identity())) else { continue };
+        s.case("symbol-default-size", &a, pa.data().chunks(4).any(|p| p[3] != 0));
+        let (ok, why) = rend::similar(&pa, &pb, 4);
+        if !ok {
+            s.finding("oracle:viewport:symbol-default-size", &format!("a use without width/height differs from the same use with 100% written out ({}x{}): {}", gw.unwrap_or(rw), gh.unwrap_or(rh), why), &a);
+        }
+    }
+    // ---- an SVG used as an image is sized with the same options (DPI) as the document that embeds it
+    for _ in 0..n / 3 {
+        let dpi = *rng.pick(&[72.0f32, 300.0, 150.0, 96.0, 30.0]);
+        let (u, f) = *rng.pick(&units[2..]);
+        let (nw, nh) = (rng.range(1, 12) as f64 / 4.0, rng.range(1, 12) as f64 / 4.0);
+        let k = f * dpi as f64 / 96.0;
+        let inner = |w: String, h: String| format!(r##"<svg xmlns="http://www.w3.org/2000/svg" width="{w}" height="{h}"><rect width="100%" height="100%" fill="#f00"/><rect width="50%" height="50%" fill="#00f"/></svg>"##);
+        let (ia, ib) = (inner(format!("{nw}{u}"), format!("{nh}{u}")), inner(format!("{}", nw * k), format!("{}", nh * k)));
+        let sized = rng.chance(1, 2);
+        let outer = |data: &str| {
+            format!(
+                r#"<svg xmlns="http://www.w3.org/2000/svg" xmlns:xlink="http://www.w3.org/1999/xlink" width="200" height="200"><image x="10" y="10"{} xlink:href="data:image/svg+xml;base64,{}"/></svg>"#,
+                if sized { r#" width="120" height="90" preserveAspectRatio="xMidYMid meet""# } else { "" },
+                b64(data.as_bytes())
+            )
+        };
+        let o = opts(dpi, 100.0, 100.0);
+        let (a, b) = (outer(&ia), outer(&ib));
+        let (Ok(ta), Ok(tb)) = (usvg::Tree::from_str(&a, &o), usvg::Tree::from_str(&b, &o)) else { continue };
+        let (Some(pa), Some(pb)) = (rend::render(&ta, 200, 200, tiny_skia::Transform::identity()), rend::render(&tb, 200, 200, tiny_skia::Transform::identity())) else { continue };
+        let key = format!("dpi={} inner={} {}", dpi, ia, a);
+        s.case("image-svg-dpi", &key, pa.data().chunks(4).any(|p| p[3] != 0));
+        let (ok, why) = rend::similar(&pa, &pb, 4);
+        if !ok {
+            s.finding("oracle:viewport:svg-image-ignores-dpi", &format!("an embedded SVG sized {nw}{u} x {nh}{u} at {dpi} dpi differs from the same image sized in pixels ({} x {}): {}", nw * k, nh * k, why), &key);
+        }
+    }
 }
 
 pub fn b64(data: &[u8]) -> String {
